@@ -298,44 +298,45 @@ def byteLike (e : Ty) : Bool :=
   | .int false w _ => decide (w ≤ 8)
   | _ => false
 
-/-- The `assign_array` macro (after `fix: over-long bytes are not re-parsed as a number`): a `bytes`/`bytearray`
-source for a byte-like element type is length-checked and never reaches `numpy.array`. -/
-def assignArray (np : Oracle) (fixed : Bool) (cap : Nat) (e : Ty) (x : Py) : Except Exc Py :=
-  let dt := dtypeOf e
-  -- x = x.encode() if isinstance(x, str) else x
-  let x := if strLike fixed e then (match x with | .str bs => .bytes false bs | y => y) else x
-  let slow : Except Exc Py := do
-    let xs ← np dt x
-    if lenOK fixed cap xs.length then pure (.nd dt xs) else throw .value
-  let fast : Except Exc Py :=
-    match x with
-    | .nd dt' xs => if dt' = dt ∧ lenOK fixed cap xs.length = true then pure (.nd dt xs) else slow
-    | _ => slow
+/-- `x = x.encode() if isinstance(x, str) else x` (emitted only for string-like arrays). -/
+def encodeStr (fixed : Bool) (e : Ty) (x : Py) : Py :=
+  if strLike fixed e then (match x with | .str bs => .bytes false bs | y => y) else x
+
+/-- "Last resort, slow construction of a new array": `numpy.array(x, dt).flatten()`, then the length check. -/
+def slowPath (np : Oracle) (fixed : Bool) (cap : Nat) (dt : DType) (x : Py) : Except Exc Py := do
+  let xs ← np dt x
+  if lenOK fixed cap xs.length then pure (.nd dt xs) else throw .value
+
+/-- "Fast binding if the source array has the same type and dimensionality", else the slow path. -/
+def fastPath (np : Oracle) (fixed : Bool) (cap : Nat) (dt : DType) (x : Py) : Except Exc Py :=
+  match x with
+  | .nd dt' xs => if dt' = dt ∧ lenOK fixed cap xs.length = true then pure (.nd dt xs) else slowPath np fixed cap dt x
+  | _ => slowPath np fixed cap dt x
+
+def fromBuffer (dt : DType) (bs : List Nat) : Py := .nd dt (bs.map fun b => .int ((b % 256 : Nat) : Int))
+
+/-- The `assign_array` macro (after `fix: … reject over-long bytes`): a `bytes`/`bytearray` source for a
+byte-like element type is length-checked and never reaches `numpy.array`. -/
+def assignCore (np : Oracle) (fixed : Bool) (cap : Nat) (e : Ty) (x : Py) : Except Exc Py :=
   if byteLike e then
     match x with
-    | .bytes _ bs =>
-      if lenOK fixed cap bs.length then pure (.nd dt (bs.map fun b => .int ((b % 256 : Nat) : Int))) else throw .value
-    | _ => fast
-  else fast
+    | .bytes _ bs => if lenOK fixed cap bs.length then pure (fromBuffer (dtypeOf e) bs) else throw .value
+    | _ => fastPath np fixed cap (dtypeOf e) x
+  else fastPath np fixed cap (dtypeOf e) x
+
+def assignArray (np : Oracle) (fixed : Bool) (cap : Nat) (e : Ty) (x : Py) : Except Exc Py :=
+  assignCore np fixed cap e (encodeStr fixed e x)
 
 /-- `assign_array` as shipped before the fix: a `bytes` source of the wrong length falls through to
 `numpy.array(x, dtype)`, which reads the buffer as one decimal literal. -/
 def assignArrayBeforeFix (np : Oracle) (fixed : Bool) (cap : Nat) (e : Ty) (x : Py) : Except Exc Py :=
-  let dt := dtypeOf e
-  let x := if strLike fixed e then (match x with | .str bs => .bytes false bs | y => y) else x
-  let slow : Except Exc Py := do
-    let xs ← np dt x
-    if lenOK fixed cap xs.length then pure (.nd dt xs) else throw .value
-  let fast : Except Exc Py :=
-    match x with
-    | .nd dt' xs => if dt' = dt ∧ lenOK fixed cap xs.length = true then pure (.nd dt xs) else slow
-    | _ => slow
+  let x := encodeStr fixed e x
   if byteLike e then
     match x with
     | .bytes _ bs =>
-      if lenOK fixed cap bs.length then pure (.nd dt (bs.map fun b => .int ((b % 256 : Nat) : Int))) else fast
-    | _ => fast
-  else fast
+      if lenOK fixed cap bs.length then pure (fromBuffer (dtypeOf e) bs) else fastPath np fixed cap (dtypeOf e) x
+    | _ => fastPath np fixed cap (dtypeOf e) x
+  else fastPath np fixed cap (dtypeOf e) x
 
 /-- Does a finite/infinite/NaN float pass the emitted float range check of a `w`-bit field? -/
 def floatOK (w : Nat) (f : F) : Bool :=
@@ -597,6 +598,11 @@ end
 /-- `update_from_builtin(d, v)` for a destination `d` of composite type `t`. -/
 def update (np : Oracle) (t : Ty) (d v : Py) : Except Exc Py :=
   if isComp t && isObj d then updSlot np t d v else .error .other
+
+/-- A candidate ndarray holds only what its dtype can hold (true of every real ndarray). -/
+def ndOK : Py → Bool
+  | .nd dt xs => xs.all (inDT dt)
+  | _ => true
 
 /-- NumPy's `numpy.array(x, dtype).flatten()` as an assumed oracle: whatever it returns fits the dtype (an array
 cannot hold anything else); a list of Python scalars that already are values of the dtype (what `to_builtin`
